@@ -59,6 +59,21 @@ CcAttrs() {
     return attrsList;
 }
 
+/// whether a directive argument [p, end) has RFC 9111 delta-seconds syntax: 1*DIGIT.
+/// httpHeaderParseInt() alone is strtol(): it accepts white space, signs and
+/// stops silently at the first non-digit ("max-age=5x" would be 5).
+static bool
+isDeltaSeconds(const char *p, const char * const end)
+{
+    if (!p || p >= end)
+        return false;
+    for (; p < end; ++p) {
+        if (!xisdigit(*p))
+            return false;
+    }
+    return true;
+}
+
 static auto
 ccTypeByName(const SBuf &name) {
     const static auto table = new LookupTable<HttpHdrCcType>(HttpHdrCcType::CC_OTHER, CcAttrs());
@@ -149,7 +164,7 @@ HttpHdrCc::parse(const String & str)
         switch (type) {
 
         case HttpHdrCcType::CC_MAX_AGE:
-            if (!p || !httpHeaderParseInt(p, &max_age) || max_age < 0) {
+            if (!isDeltaSeconds(p, item + ilen) || !httpHeaderParseInt(p, &max_age) || max_age < 0) {
                 debugs(65, 2, "cc: invalid max-age specs near '" << item << "'");
                 clearMaxAge();
             } else {
@@ -158,7 +173,7 @@ HttpHdrCc::parse(const String & str)
             break;
 
         case HttpHdrCcType::CC_S_MAXAGE:
-            if (!p || !httpHeaderParseInt(p, &s_maxage) || s_maxage < 0) {
+            if (!isDeltaSeconds(p, item + ilen) || !httpHeaderParseInt(p, &s_maxage) || s_maxage < 0) {
                 debugs(65, 2, "cc: invalid s-maxage specs near '" << item << "'");
                 clearSMaxAge();
             } else {
@@ -170,7 +185,7 @@ HttpHdrCc::parse(const String & str)
             if (!p) {
                 debugs(65, 2, "cc: max-stale directive is valid without value");
                 maxStale(MAX_STALE_ANY);
-            } else if (!httpHeaderParseInt(p, &max_stale) || max_stale < 0) {
+            } else if (!isDeltaSeconds(p, item + ilen) || !httpHeaderParseInt(p, &max_stale) || max_stale < 0) {
                 debugs(65, 2, "cc: invalid max-stale specs near '" << item << "'");
                 clearMaxStale();
             } else {
@@ -179,7 +194,7 @@ HttpHdrCc::parse(const String & str)
             break;
 
         case HttpHdrCcType::CC_MIN_FRESH:
-            if (!p || !httpHeaderParseInt(p, &min_fresh) || min_fresh < 0) {
+            if (!isDeltaSeconds(p, item + ilen) || !httpHeaderParseInt(p, &min_fresh) || min_fresh < 0) {
                 debugs(65, 2, "cc: invalid min-fresh specs near '" << item << "'");
                 clearMinFresh();
             } else {
@@ -188,7 +203,7 @@ HttpHdrCc::parse(const String & str)
             break;
 
         case HttpHdrCcType::CC_STALE_IF_ERROR:
-            if (!p || !httpHeaderParseInt(p, &stale_if_error) || stale_if_error < 0) {
+            if (!isDeltaSeconds(p, item + ilen) || !httpHeaderParseInt(p, &stale_if_error) || stale_if_error < 0) {
                 debugs(65, 2, "cc: invalid stale-if-error specs near '" << item << "'");
                 clearStaleIfError();
             } else {
